@@ -56,7 +56,9 @@ pub fn oracle(s: &ProgScene<X>, t: &Trace) -> Vec<Violation> {
     let ck = format!("{cause:?}").split('(').next().unwrap_or("").to_string();
     let term = an.task_end(0);
     let stopped_exit = an.exits.iter().any(|e| e.a == 0 && e.cb == Cb::Stopped);
-    let graceful = matches!(term, Some((_, false))) && stopped_exit;
+    // graceful = ended, not cancelled, stopped() completed AND nothing failed on the way (a
+    // failed actor must not pass for a gracefully stopped one just because stopped() also ran)
+    let graceful = matches!(term, Some((_, false))) && stopped_exit && !an.role_failed(0, &s.roles[0].started);
     let op_at = |c: u8, i: u16| s.clients.get(c as usize).and_then(|cs| cs.ops.get(i as usize));
     let mut joins_some = 0;
     for o in &an.ops {
